@@ -123,6 +123,14 @@ CLAIMED = {
         note="Assumed: _set_entries / _set_multiple_entries write the dict they get; the optional-column helpers write a value iff it is "
              "not NaN/None; a NaN argument of a single call is numpy's nan object. Not decided deductively: bus/load/sgen/gen/storage/"
              "shunt/ward/switch/impedance/cost pairs, duplicate-index and missing-bus checks (bounded stand-in only)."),
+    "C32": dict(
+        text="Proof on the real class text (Characteristic, SplineCharacteristic with interp1d and Pchip, LogSplineCharacteristic, "
+             "default_interp1d) for support points of any number: c(x[k]) == y[k]; the interpolator is built from the stored support "
+             "points and the user's keyword arguments with the documented defaults; evaluation leaves the persisted attributes "
+             "(x_vals, y_vals, kwargs, interpolator_kind) exactly as the constructor stored them and the cached interpolator is "
+             "excluded from serialisation, so a restored object rebuilds the same curve.",
+        note="Assumed (external contracts): numpy.interp / scipy interp1d / PchipInterpolator pass through their support points and "
+             "Pchip / linear interpolation are shape preserving; 10**log10(y) == y. Not decided: the JSON codec (C20 not applicable)."),
 }
 
 NOT_APPLICABLE = {
